@@ -56,6 +56,22 @@ def generate(mods, board, probs, via='write_robots'):
     return games, text
 
 
+def generate_manual(mods, board, probs):
+    """the second entry point: stochastic_game_from_roborta_board.create_sg_from_board(moves, rewards, loose, robot, light, tile)
+    -> (file name, games dict as loaded by the solver's reader); exactly one file may be written"""
+    sm, cr = mods['stochastic_game_from_roborta_board'], mods['conditionalrewards']
+    moves, rewards, loose = board
+    ptile, probot, plight = probs
+    import copy
+    with MemFS() as fs:
+        sm.create_sg_from_board(copy.deepcopy(moves), copy.deepcopy(rewards), copy.deepcopy(loose), probot, plight, ptile)
+        names = list(fs.files)
+        if len(names) != 1:
+            return names, None
+        games = cr.read_dict_from_file(names[0])
+    return names[0], games
+
+
 def reference(board, probs, variant):
     """the Roborta game of the statement: dict state -> (owner, reward, [(label|prob, succ)]), initial, finals"""
     moves, rewards, loose = board
@@ -157,6 +173,15 @@ def gen_boards(rng, tier):
                 rw = [(k + 1) % 2 for k in range(n)]
                 to = lambda xs: [list(xs[r * W:(r + 1) * W]) for r in range(L)]
                 yield dict(board=(to(mv), to(rw), to(lo)), probs=(0.1, 0.2, 0.3))
+    # the fair-coin corner: with every probability exactly 0.5 the two branches (p, s) and (1 - p, s') of a probabilistic state are
+    # EQUAL tuples whenever s == s' (width 1: 'stay' and 'move with wrap-around' are the same tile) -- anything that treats
+    # transitions as a set loses mass exactly there
+    for (L, W) in [(1, 1), (2, 1), (1, 2)]:
+        n = L * W
+        for mv in itertools.product(range(4), repeat=n):
+            for lo in itertools.product(range(2), repeat=n):
+                to = lambda xs: [list(xs[r * W:(r + 1) * W]) for r in range(L)]
+                yield dict(board=(to(mv), to([(k + 1) % 2 for k in range(n)]), to(lo)), probs=(0.5, 0.5, 0.5))
     # boards large enough for state numbers and offsets beyond 256 (CPython's cached small integers: identity and equality of
     # int objects differ there), beyond 1000, and with single rows/columns
     for (L, W) in dict(quick=[(9, 10), (1, 90)], thorough=[(9, 10), (10, 9), (1, 90), (90, 1), (18, 20), (30, 12)])[tier]:
@@ -165,6 +190,11 @@ def gen_boards(rng, tier):
         rw = [[rng.randint(0, 6) for _ in range(W)] for _ in range(L)]
         lo = [[rng.randint(0, 1) for _ in range(W)] for _ in range(L)]
         yield dict(board=(mv, rw, lo), probs=(0.1, 0.25, 0.5))
+    # one very long, narrow board (a corridor of 400 rows; all arrows down-only in the second variant so that the game is solvable)
+    for dn in (False, True):
+        L, W = 400, 1
+        mv = [[3 if dn else rng.choice([0, 1, 2])] for _ in range(L)]
+        yield dict(board=(mv, [[rng.randint(0, 3)] for _ in range(L)], [[1 if r % 50 == 7 else 0] for r in range(L)]), probs=(0.1, 0.25, 0.5))
     n_rand = dict(quick=120, thorough=3000)[tier]
     for i in range(n_rand):
         L, W = rng.choice([(2, 2), (1, 4), (4, 1), (2, 3), (3, 2), (3, 3), (1, 5), (5, 1), (2, 4), (4, 4), (1, 1), (3, 1)])
@@ -172,7 +202,7 @@ def gen_boards(rng, tier):
         mv = [[rng.choice([0, 1, 2, 3] if fd else [0, 1, 2]) for _ in range(W)] for _ in range(L)]
         rw = [[rng.randint(0, 6) for _ in range(W)] for _ in range(L)]
         lo = [[rng.randint(0, 1) for _ in range(W)] for _ in range(L)]
-        yield dict(board=(mv, rw, lo), probs=(rng.choice([0.1, 0.125, 0.3, 0.996, 0.004, 1 / 3, 0.12345, 0.99999]), rng.choice([0.1, 0.25, 0.01, 1 / 3, 0.12345, 1e-05, 0.99999]), rng.choice([0.1, 0.5, 0.05, 2 / 3, 0.54321, 1e-05])))
+        yield dict(board=(mv, rw, lo), probs=(rng.choice([0.1, 0.125, 0.3, 0.996, 0.004, 1 / 3, 0.12345, 0.99999, 0.5]), rng.choice([0.1, 0.25, 0.01, 1 / 3, 0.12345, 1e-05, 0.99999, 0.5]), rng.choice([0.1, 0.5, 0.05, 2 / 3, 0.54321, 1e-05])))
 
 
 _SOLVE_BUDGET = [25.0]      # seconds per oracle process spent on solving generated games (many of them do not converge: F-DIVERGE)
@@ -187,6 +217,22 @@ def check_board(inp, mods, rng=None):
         return [({'C08', 'C11'}, 'file-loadable', f'writing/reading the file failed with {type(e).__name__}: {str(e)[:200]}')]
     if not isinstance(games, dict) or list(games.keys()) != ['game_a', 'game_b', 'game_c']:
         return [({'C11', 'C08'}, 'three-games', f'the file holds {list(games.keys()) if isinstance(games, dict) else type(games).__name__}, expected game_a, game_b, game_c')]
+    # ---- the hand-made-board entry point emits the same three games (same writers, same board, probabilities in the right places)
+    if 'stochastic_game_from_roborta_board' in mods and len(board[0]) * len(board[0][0]) <= 12:
+        try:
+            mname, mgames = generate_manual(mods, board, probs)
+            if mgames is None:
+                F.append(({'C08', 'C11'}, 'manual-entry-one-file', f'create_sg_from_board wrote {mname!r} (expected exactly one file) for board {board!r}'))
+            elif mgames != games:
+                diff = [k for k in ('game_a', 'game_b', 'game_c') if not isinstance(mgames, dict) or mgames.get(k) != games.get(k)]
+                F.append(({'C08', 'C11'}, 'manual-entry-same-games', f'create_sg_from_board({board!r}, robot={probs[1]}, light={probs[2]}, tile={probs[0]}) emits different {diff} '
+                          f'than write_robots on the same board and probabilities (file {mname!r})'))
+            else:
+                Ln_, W_ = len(board[0]), len(board[0][0])
+                if not (isinstance(mname, str) and mname.startswith('inputs/manual_robot_w%d_l%d_r%d_' % (W_, Ln_, max(max(r) for r in board[1]))) and mname.endswith('.py')):
+                    F.append(({'C08', 'C11'}, 'manual-entry-name', f'create_sg_from_board names the file {mname!r} for a {Ln_}x{W_} board with maximum reward {max(max(r) for r in board[1])}'))
+        except BaseException as e:   # noqa
+            F.append(({'C08', 'C11'}, 'manual-entry-runs', f'create_sg_from_board failed with {type(e).__name__}: {str(e)[:200]} for board {board!r}'))
     tad = mods['tad']
     for v in 'abc':
         g = games['game_' + v]
@@ -241,4 +287,15 @@ def check_board(inp, mods, rng=None):
                     break
                 finally:
                     _SOLVE_BUDGET[0] -= _time.time() - t0_
+        # very long boards: the search phases must cope with paths thousands of states deep; the outcome of the solve is judged only
+        # if it ends within the limit (a result or the 'no solution' ValueError are both fine; any other exception is a failure)
+        if len(board[0]) * len(board[0][0]) >= 300 and v in 'ab' and not F and os.environ.get('ORACLE_PROP', 'C11') == 'C11':
+            import copy as _copy
+            import solver_checks as _SC
+            try:
+                _SC.timed(lambda: tad.StochasticGame(**_copy.deepcopy(g), prune_states=True).solve(), 3)
+            except (ValueError, _SC.Timeout):
+                pass
+            except BaseException as e:   # noqa
+                F.append(({'C11', 'C06'}, 'solved-or-refused', tag + f'solve(prune=True) of the generated game of a {len(board[0])}x{len(board[0][0])} board ended with {type(e).__name__}: {str(e)[:120]}'))
     return F[:4]
